@@ -86,7 +86,8 @@ func c09Doc(key, part, val string, extra []bool) string {
 // which: 0 the map key, 1 the array element on its own line, 2 the string value
 func c09Cleanup(which int) {
 	L := 4
-	if nd.Thorough() {
+	if nd.Thorough() || which == 1 {
+		// five bytes reach backslash, quote, colon and two blanks on a line of its own
 		L = 5
 	}
 	key, part, val := "k", "p", "v"
@@ -164,7 +165,7 @@ func c09Canon(s string) string {
 //verif:shard-thorough 16 6
 func Harness_C09_JSONCleanupKey() { c09Cleanup(0) }
 
-//verif:shard-quick 8 5
+//verif:shard-quick 16 6
 //verif:shard-thorough 16 6
 func Harness_C09_JSONCleanupElement() { c09Cleanup(1) }
 
